@@ -1457,11 +1457,12 @@ package gogen
 
 // the assignability gate (abstract boundary of C01; its verdict is C05's subject): a nil result defines the event.
 // Frame (trusted): it may rewrite the operand's own fields, push and pop operands above the current stack top and
-// emit nothing; it never overwrites a slot of an operand list
+// emit nothing; it never overwrites a slot of an operand list, and of the operands that exist it rewrites only arg
 //@ func matchType
 //@ trusted
-//@ assigns heapexcept([]*internal.Elem; *Package)
+//@ assigns arg.Val, arg.Type, arg.CVal, arg.Src, heapexcept([]*internal.Elem; *Package; []ast.Expr; field:ast.AssignStmt.Lhs; field:ast.AssignStmt.Rhs; field:ast.AssignStmt.Tok; field:CodeBuilder.pkg; field:refType.typ; field:internal.Elem.Val; field:internal.Elem.Type; field:internal.Elem.CVal; field:internal.Elem.Src; []ast.Stmt; field:codeBlockCtx.stmts; field:codeBlockCtx.label; []types.Type; field:ast.RangeStmt.Key; field:ast.RangeStmt.Value; field:ast.RangeStmt.X; field:ast.RangeStmt.Tok)
 //@ defines imp(result == nil, Matched(arg, param))
+//@ tensures len(pkg.cb.stk.data) == old(len(pkg.cb.stk.data)) && forall(i, 0, len(pkg.cb.stk.data), pkg.cb.stk.data[i] == old(pkg.cb.stk.data[i]))
 
 //@ func matchArgType
 //@ prop C01
@@ -1801,3 +1802,63 @@ package gogen
 //@ ensures[C01] typeis(Resolve(old(p.stk.data[len(p.stk.data)-1].Type)), *types.Interface) && ghost(implChecked)
 //@ ensures fresh(p.stk.data[len(p.stk.data)-1]) && typeis(p.stk.data[len(p.stk.data)-1].Val, *ast.TypeAssertExpr) && p.stk.data[len(p.stk.data)-1].Val.(*ast.TypeAssertExpr).X == old(p.stk.data[len(p.stk.data)-1].Val) && TE(p.stk.data[len(p.stk.data)-1].Val.(*ast.TypeAssertExpr).Type, typ)
 //@ ensures[C03] imp(lhs != 2, p.stk.data[len(p.stk.data)-1].Type == typ) && imp(lhs == 2, typeis(p.stk.data[len(p.stk.data)-1].Type, *types.Tuple))
+
+// ---------------------------------------------------------------------------
+// C01/C02/C16 — assignment
+
+//@ func (*inferFuncType).Instance
+//@ trusted
+//@ assigns heapexcept([]*internal.Elem; *Package; []ast.Expr; field:ast.AssignStmt.Lhs; field:ast.AssignStmt.Rhs; field:ast.AssignStmt.Tok; field:CodeBuilder.pkg; field:refType.typ; field:internal.Elem.Val; field:internal.Elem.Type; field:internal.Elem.CVal; field:internal.Elem.Src; []ast.Stmt; field:codeBlockCtx.stmts; field:codeBlockCtx.label; []types.Type; field:ast.RangeStmt.Key; field:ast.RangeStmt.Value; field:ast.RangeStmt.X; field:ast.RangeStmt.Tok)
+//@ tensures p.pkg == old(p.pkg) && len(p.pkg.cb.stk.data) == old(len(p.pkg.cb.stk.data)) && forall(i, 0, len(p.pkg.cb.stk.data), p.pkg.cb.stk.data[i] == old(p.pkg.cb.stk.data[i]))
+//@ func getCaller
+//@ trusted
+//@ readonly
+
+// a value may be assigned to a target only if the target is a variable reference whose type the value was matched
+// against, or the blank identifier (Go spec "Assignment statements": each value must be assignable to its operand)
+//@ func checkAssignType
+//@ prop C01
+//@ requires pkg != nil && val != nil && imp(typeis(val.Type, *inferFuncType), val.Type.(*inferFuncType).pkg == pkg)
+//@ assigns val.Val, val.Type, val.CVal, val.Src, heapexcept([]*internal.Elem; *Package; []ast.Expr; field:ast.AssignStmt.Lhs; field:ast.AssignStmt.Rhs; field:ast.AssignStmt.Tok; field:CodeBuilder.pkg; field:refType.typ; field:internal.Elem.Val; field:internal.Elem.Type; field:internal.Elem.CVal; field:internal.Elem.Src; []ast.Stmt; field:codeBlockCtx.stmts; field:codeBlockCtx.label; []types.Type; field:ast.RangeStmt.Key; field:ast.RangeStmt.Value; field:ast.RangeStmt.X; field:ast.RangeStmt.Tok)
+//@ ensures varRef == nil || (typeis(varRef, *refType) && Matched(val, varRef.(*refType).typ))
+//@ ensures len(pkg.cb.stk.data) == old(len(pkg.cb.stk.data)) && forall(i, 0, len(pkg.cb.stk.data), pkg.cb.stk.data[i] == old(pkg.cb.stk.data[i]))
+
+//@ func checkAssign
+//@ prop C01
+//@ requires pkg != nil && ref != nil
+//@ assigns heapexcept([]*internal.Elem; *Package; []types.Type; field:internal.Elem.Val; field:internal.Elem.Type; field:ast.RangeStmt.Key; field:ast.RangeStmt.Value; field:ast.RangeStmt.X; field:ast.RangeStmt.Tok)
+//@ ensures ref.Type == nil || typeis(ref.Type, *refType)
+//@ defines imp(ref.Type != nil, AssignTypeOK(ref.Type, val))
+
+// x0, x1, ... = v0, v1, ... (Go spec "Assignment statements"): as many values as targets, each checked against its
+// target in order, or one multi-valued call whose results are checked component-wise; the statement lists the target
+// and value expressions in operand order; all operands are consumed
+//@ func (*CodeBuilder).doAssignWith
+//@ prop C01 C02 C16
+//@ requires p.pkg != nil && lhs >= 1 && rhs >= 1 && len(p.stk.data) >= lhs + rhs && forall(i, 0, len(p.stk.data), p.stk.data[i] != nil)
+//@ requires !(rhs == 1 && typeis(p.stk.data[len(p.stk.data) - 1].Type, *types.Tuple))
+//@ requires forall(i, 0, len(p.stk.data), forall(j, 0, len(p.stk.data), imp(i != j, p.stk.data[i] != p.stk.data[j])))
+//@ requires addr(p.pkg.cb) == p && forall(i, 0, len(p.stk.data), !typeis(p.stk.data[i].Type, *inferFuncType))
+//@ loop 1 invariant 0 <= i && i <= lhs && lhs == rhs && p.pkg != nil && len(args) == lhs + rhs
+//@ loop 1 invariant len(p.stk.data) == old(len(p.stk.data)) && forall(k, 0, len(p.stk.data), p.stk.data[k] == old(p.stk.data[k])) && unchanged("A!*internal.Elem")
+//@ loop 1 invariant fresh(stmt) && len(stmt.Lhs) == lhs && len(stmt.Rhs) == rhs && stmt.Tok == token.ASSIGN
+//@ loop 1 invariant p.current.stmts == old(p.current.stmts) && p.current.label == old(p.current.label) && unchanged("A!ast.Stmt")
+//@ loop 1 invariant forall(j, 0, lhs, args[j].Type == old(p.stk.data[len(p.stk.data) - lhs - rhs + j].Type))
+//@ loop 1 invariant forall(j, i, lhs, !typeis(args[lhs + j].Type, *inferFuncType))
+//@ loop 1 invariant fresh(stmt.Lhs) && fresh(stmt.Rhs) && forall(j, 0, i, stmt.Lhs[j] == args[j].Val && stmt.Rhs[j] == args[lhs + j].Val)
+//@ loop 1 invariant forall(j, 0, lhs + rhs, args[j] == old(p.stk.data[len(p.stk.data) - lhs - rhs + j]))
+//@ loop 1 invariant forall(j, 0, i, AssignChecked(old(p.stk.data[len(p.stk.data) - lhs - rhs + j].Type), args[lhs + j]))
+//@ ensures lhs == rhs && len(p.stk.data) == old(len(p.stk.data)) - lhs - rhs && forall(i, 0, len(p.stk.data), p.stk.data[i] == old(p.stk.data[i]))
+//@ ensures[C01] forall(j, 0, lhs, AssignChecked(old(p.stk.data[len(p.stk.data) - lhs - rhs + j].Type), old(p.stk.data[len(p.stk.data) - rhs + j])))
+//@ ensures[C02] Appended1(p) && imp(old(p.current.label) == nil, typeis(LastStmt(p), *ast.AssignStmt) && LastStmt(p).(*ast.AssignStmt).Tok == token.ASSIGN && len(LastStmt(p).(*ast.AssignStmt).Lhs) == lhs && len(LastStmt(p).(*ast.AssignStmt).Rhs) == rhs && forall(j, 0, lhs, LastStmt(p).(*ast.AssignStmt).Lhs[j] == old(p.stk.data[len(p.stk.data) - lhs - rhs + j]).Val && LastStmt(p).(*ast.AssignStmt).Rhs[j] == old(p.stk.data[len(p.stk.data) - rhs + j]).Val))
+
+// for k, v = range x (assignment form): with at least one target, the key target was tested to accept the key type
+// Go assigns to x's type, and a value target the element type (Go spec "For statements with range clause": the
+// iteration values are assigned to the operands as in an assignment statement)
+//@ func (*forRangeStmt).RangeAssignThen
+//@ prop C01
+//@ partial
+//@ requires cb != nil && cb.pkg != nil && StkWf(cb) && forall(i, 0, len(cb.stk.data), cb.stk.data[i] != nil)
+//@ ensures imp(old(p.names) == nil && old(len(cb.stk.data) - cb.current.base) >= 2, gforall(k, gforall(v, imp(RangeTypesOK(old(cb.stk.data[len(cb.stk.data)-1].Type), k, v), imp(old(cb.stk.data[cb.current.base].Type) != nil, AssignTypeOK(old(cb.stk.data[cb.current.base].Type), k))))))
+//@ ensures imp(old(p.names) == nil && old(len(cb.stk.data) - cb.current.base) == 3 && old(cb.stk.data[cb.current.base + 1].Val) != nil, gforall(k, gforall(v, imp(RangeTypesOK(old(cb.stk.data[len(cb.stk.data)-1].Type), k, v), imp(old(cb.stk.data[cb.current.base + 1].Type) != nil, AssignTypeOK(old(cb.stk.data[cb.current.base + 1].Type), v))))))
+
